@@ -20,8 +20,79 @@ class FakeDB:
         return iter([(k, self.rows[k]) for k in keys])
 
 
+def pack5(n):
+    return struct.pack('<Q', n)[:5]
+
+
+def check_add_unflushed(rounds, seed):
+    '''History.add_unflushed against its definition: every script hash gets the 5-byte number of each transaction that
+    touches it, once per transaction, in order.  Besides random cases the generator is adversarial about byte
+    alignment: later transaction numbers are chosen so that their 5-byte encoding occurs at a NON-aligned offset (or at
+    an aligned one, i.e. a genuine repeat is impossible since numbers increase) of what is already recorded.'''
+    import random
+    from collections import defaultdict
+    rnd = random.Random(seed)
+    hxs = [bytes([i]) * 11 for i in range(1, 6)]
+    for case in range(rounds):
+        h = History()
+        h.unflushed = defaultdict(bytearray)
+        h.unflushed_count = 0
+        model = {}
+        count = 0
+        first = rnd.choice([0, 1, 255, 256, 65535, 65536, rnd.randrange(1 << 24), rnd.randrange(1 << 32), rnd.randrange(1 << 39)])
+        calls = []
+        for call in range(rnd.randrange(1, 5)):
+            if call and rnd.random() < 0.7:
+                # adversarial jump: a number whose encoding is a misaligned window of some recorded history
+                cands = []
+                for hx, b in model.items():
+                    for off in range(1, max(1, len(b) - 4)):
+                        if off % 5:
+                            n = int.from_bytes(bytes(b[off:off + 5]), 'little')
+                            if n >= first:
+                                cands.append((n, hx))
+                if cands:
+                    first, target = rnd.choice(cands)
+                else:
+                    target = None
+            else:
+                target = None
+            by_tx = []
+            for k in range(rnd.randrange(1, 6)):
+                tx = [rnd.choice(hxs) for _ in range(rnd.randrange(0, 5))]
+                if target is not None and k == 0:
+                    tx.append(target)
+                by_tx.append(tx)
+            calls.append((first, [[x.hex()[:2] for x in tx] for tx in by_tx]))
+            for i, tx in enumerate(by_tx):
+                for hx in dict.fromkeys(tx):
+                    model.setdefault(hx, bytearray()).extend(pack5(first + i))
+                    count += 1
+            try:
+                h.add_unflushed(by_tx, first)
+            except BaseException as e:   # noqa
+                return case, {'calls': calls}, f'add_unflushed raised {e!r}'
+            first += len(by_tx) + rnd.choice([0, 0, 1, 300])
+            got = {k: bytes(v) for k, v in h.unflushed.items() if v}
+            want = {k: bytes(v) for k, v in model.items()}
+            if got != want:
+                bad = [k for k in set(got) | set(want) if got.get(k) != want.get(k)][0]
+                return case, {'calls': calls}, (f'unflushed history of script hash {bad.hex()[:2]}.. has {len(got.get(bad, b"")) // 5} entries, '
+                                                f'its transactions are {len(want.get(bad, b"")) // 5}')
+            if h.unflushed_count != count:
+                return case, {'calls': calls}, f'unflushed_count is {h.unflushed_count}, {count} entries were added'
+    return rounds, None, None
+
+
 def main():
     req = json.loads(sys.stdin.read() or '{}')
+    cases, inp, bad = check_add_unflushed(int(req.get('rounds') or 400), int(req.get('seed') or 0))
+    if bad:
+        print(json.dumps({'reproduced': True, 'input': inp, 'detail': bad, 'cases': cases}))
+        return
+    if 'add_unflushed' in (req.get('obligation') or ''):
+        print(json.dumps({'reproduced': False, 'detail': f'{cases} add_unflushed call sequences agree with the definition', 'cases': cases}))
+        return
     hx = b'\x01' * 11
     other = b'\x02' * 11
     n = 0
